@@ -371,6 +371,10 @@ func (jit *JITCompiler) InvalidateCache(name string) {
 	jit.unitsMux.Lock()
 	delete(jit.units, name)
 	jit.unitsMux.Unlock()
+
+	// Type-specialised bytecode was compiled from the same definition: without
+	// this, CompileRouteWithTypes kept serving the old code after an invalidation.
+	jit.specializationCache.InvalidateSpecializations(name)
 }
 
 // ClearCache removes all compilation units from the cache
@@ -378,6 +382,8 @@ func (jit *JITCompiler) ClearCache() {
 	jit.unitsMux.Lock()
 	jit.units = make(map[string]*CompilationUnit)
 	jit.unitsMux.Unlock()
+
+	jit.specializationCache.InvalidateAll()
 }
 
 // GetProfiler returns the profiler instance
